@@ -25,7 +25,7 @@ from common import rq, unrq, enc_list, dec_list
 REQUIRED = ['ice_eq_npgformula', 'plan_rowwise_eq_single', 'ice_rowwise_eq_npgformula', 'npg_textbook_form',
             'plan_shape', 'ice_single_t_eq_timefixed',
             'survival_product_limit', 'cuminc_monotone_bounded',
-            'survgf_fit_generated', 'survgf_fit_generated_custom', 'survgf_weighted_generated', 'ice_step_generated']
+            'survgf_fit_generated', 'survgf_fit_generated_custom', 'ice_step_generated']
 RULE = ('wide data: K in 1..3 time points, covariate arity 2 (3 for K<=2 in some sets), every history cell seeded so '
         'that the saturated designs have full rank, survival-type outcomes (missing after the first event; optionally '
         'treatments/covariates missing there too), four index styles; every static plan in {0,1}^K given as one row and '
@@ -692,7 +692,7 @@ def check_long(chk, drv, rng, df, model, saturated, tag):
         if href is not None:
             cs = cc.sort_values(['id', 't'], kind='stable')
             pos = cs.index.values
-            rep, line = drv.ask('sgf_gen', treatment=('custom' if plan == 'custom' else treat), hasw=0,
+            rep, line = drv.ask('sgf_gen', treatment=('custom' if plan == 'custom' else treat),
                                 **long_args(dfr.loc[pos], cond[pos], href[0][pos], href[1][pos]))
             ok = rep['status'] == 'ok'
             if ok:
@@ -723,75 +723,6 @@ def check_long(chk, drv, rng, df, model, saturated, tag):
             chk.d(ok, 'SurvivalGFormula (hazard saturated in arm x time) == product-limit cumulative incidence',
                   None if ok else mk({'first_difference': bad}))
 
-
-
-def check_long_weighted(chk, drv, rng, df, model):
-    """K only: SurvivalGFormula with a weight column.  The weighted branch of `fit` (`_weighted_average`) is regenerated
-    from the source too; it has no hand-written model, so the generated definition is compared with the implementation
-    directly (hazards from the harness's own reference fit with the same frequency weights)."""
-    from zepid.causal.gformula import SurvivalGFormula
-    import statsmodels.api as sm
-    import statsmodels.formula.api as smf
-    import warnings
-    if drv is None:
-        return
-    dfw = df.copy()
-    dfw['wt'] = rng.integers(1, 4, size=len(dfw)).astype(float)
-    dfr = dfw.reset_index(drop=True)
-    cc = dfr.dropna()
-    cs = cc.sort_values(['id', 't'], kind='stable')
-    cond = (dfr['B'] == 1).values
-    try:
-        with warnings.catch_warnings():
-            warnings.simplefilter('ignore')
-            fm = smf.glm('Y ~ ' + model, cs, family=sm.families.family.Binomial(), freq_weights=cs['wt']).fit()
-        d1, d0 = cs.copy(), cs.copy()
-        d1['A'] = 1.0
-        d0['A'] = 0.0
-        h1 = np.asarray(fm.predict(d1), dtype=float)
-        h0 = np.asarray(fm.predict(d0), dtype=float)
-        dev = float(np.abs(fm.model.exog.T @ (cs['wt'].values * (fm.model.endog - fm.fittedvalues.values))).max()) / 10.0
-        chk.h_checked += 1
-        if not dev <= H_TOL or not (np.all(np.isfinite(h1)) and np.all(np.isfinite(h0))):
-            chk.discard('weighted reference hazard fit off its score equations')
-            return
-    except Exception as e:
-        chk.discard('weighted reference hazard fit raised %s' % type(e).__name__)
-        return
-    sg = None
-    for treat, plan in [('all', 'all'), ("g['B']==1", 'custom'), ('natural', 'natural'), ('none', 'none')][:2 + int(rng.integers(0, 3))]:
-        try:
-            if sg is None:
-                sg = SurvivalGFormula(dfw, idvar='id', exposure='A', outcome='Y', time='t', weights='wt')
-                with warnings.catch_warnings():
-                    warnings.simplefilter('ignore')
-                    sg.outcome_model(model=model, print_results=False)
-            sg.fit(treatment=treat)
-            v = sg.predicted_df['Y'].values
-            marg = sg.marginal_outcome
-            st = ('ok',)
-        except Exception as e:
-            st = ('exc', '%s: %s' % (type(e).__name__, str(e)[:120]))
-        chk.case(None, (hash(dfw.to_csv()), model, treat, 'weighted'))
-        chk.count('sgf_weighted_%s' % plan)
-        rec = {'kind': 'sgf_weighted', 'model': model, 'treatment': treat, 'impl_status': st, 'frame': frame_record(dfw)}
-        if st[0] != 'ok':
-            chk.k(False, 'SurvivalGFormula(weights=...) runs on valid person-period data', rec)
-            continue
-        pos = cs.index.values
-        args = long_args(dfr.loc[pos], cond[pos], h1, h0)
-        rep, line = drv.ask('sgf_gen', treatment=('custom' if plan == 'custom' else treat), hasw=1,
-                            w=enc_list(cs['wt'].values, lambda x: rq(float(x))), **args)
-        ok = rep['status'] == 'ok'
-        if ok:
-            ci = [float(unrq(x)) for x in dec_list(rep['ci'], str)]
-            tm = dec_list(rep['times'], int)
-            mg = [float(unrq(x)) for x in dec_list(rep['marg'], str)]
-            ok = len(ci) == len(v) and bool(np.all(np.abs(np.array(ci) - v) <= TOL)) and \
-                tm == [int(x) for x in marg.index] and bool(np.all(np.abs(np.array(mg) - marg.values) <= TOL))
-        rec['generated_reply'] = {k: rep[k] for k in rep if k in ('status', 'err', 'times', 'marg')}
-        chk.k(ok, 'SurvivalGFormula(weights).fit(%s): generated code (Gen.survgf_fit, weighted branch) vs impl' % plan,
-              None if ok else rec)
 
 
 # ---------------------------------------------------------------------------------------------- histories
@@ -1193,7 +1124,6 @@ def run(chk, drv, rng, tier):
         check_long(chk, drv, rng, df, 'C(t)*A', True, 'saturated')
         check_long(chk, drv, rng, df, ('A + W + B + t', 'A*W + B + t + I(t**2)', 'A + C(t) + W')[rep % 3], False,
                    'unsaturated')
-        check_long_weighted(chk, drv, rng, df, ('C(t)*A', 'A + W + B + t')[rep % 2])
     # ---- histories on reused objects, several data sets / objects interleaved in one process
     for rep in range(6 if quick else 60):
         K = 1 + rep % 3
